@@ -1,6 +1,6 @@
 #!/bin/bash
 # usage: matrix.sh <dir with */patch.diff or *.patch> — for every patch, run all 18 checks on a scratch copy; print which fire
-props="C01 C02 C03 C04 C05 C06 C07 C08 C09 C10 C11 C12 C13 C14 C15 C16 C17 C18"
+props="C01 C02 C03 C04 C05 C06 C07 C08 C09 C10 C11 C12 C13 C14 C15 C16 C17 C18 C19"
 run_one() {
   patch=$1; name=$2
   d=$(mktemp -d /tmp/mx.XXXXXX)
